@@ -455,6 +455,9 @@ class SymEngine:
         self.nonlinear = False
         self.realisations = 0
         self.decided = {}
+        self.watched = set()
+        self.watch_hits = []
+        self.prefer = None
         self.cands = []
         self.discharged = 0
         self.q_unknown = []
@@ -677,6 +680,8 @@ class SymEngine:
         if not c.lin.t:
             return c.const_truth()
         key = c.key()
+        if self.watched and self._mentions_watched(c.lin):
+            self.watch_hits.append(repr(c.lin))
         known = self.decided.get(key)
         if known is not None:       # the same condition was already decided on this path
             return known
@@ -712,6 +717,44 @@ class SymEngine:
         self.solver.add(zc if side else z3.Not(zc))
         self.depth += 1
         return side
+
+    def watch(self, *names):
+        """record every branch condition that mentions one of these variables (non-interference checks)"""
+        for n in names:
+            self.watched.add(self.vcache[n])
+
+    def _mentions_watched(self, lin):
+        for a in lin.t:
+            if a in self.watched:
+                return True
+            if a not in self.atom_names:        # opaque term (abs, product, ite ...): look inside
+                if self._term_vars(self.atoms[a]) & {self.atoms[w].get_id() for w in self.watched}:
+                    return True
+        return False
+
+    def _term_vars(self, term):
+        cache = self.__dict__.setdefault("_tv_cache", {})
+        i = term.get_id()
+        if i in cache:
+            return cache[i]
+        out = set()
+        if z3.is_const(term) and term.decl().kind() == z3.Z3_OP_UNINTERPRETED:
+            out.add(i)
+        for ch in term.children():
+            out |= self._term_vars(ch)
+        cache[i] = out
+        return out
+
+    def mentions(self, x, *names):
+        """does the symbolic number x depend syntactically on one of the named variables?"""
+        if not isinstance(x, SymNum):
+            return False
+        saved = self.watched
+        self.watched = {self.vcache[n] for n in names}
+        try:
+            return self._mentions_watched(x)
+        finally:
+            self.watched = saved
 
     def realise(self, x):
         """machine value of a symbolic number: fork over every value the path allows"""
@@ -797,6 +840,10 @@ class SymEngine:
         elif r is None:
             self.q_unknown.append(name)
         else:
+            if self.prefer is not None:     # a counterexample exists: prefer one that also satisfies the harness's hints
+                r2 = self.sat(And(Not(formula), self.prefer), integral=True)
+                if r2:
+                    self.cands.append((name, r2))
             self.cands.append((name, r))
 
     def fail(self, name, detail=None):
@@ -808,6 +855,10 @@ class SymEngine:
         if r is None or r is False:
             self.q_unknown.append(name)
         else:
+            if self.prefer is not None:
+                r2 = self.sat(self.prefer, integral=True)
+                if r2:
+                    self.cands.append((name, r2))
             self.cands.append((name, r))
 
     def holds(self, formula):
@@ -863,6 +914,9 @@ class SymEngine:
             self.q_unknown = []
             self.tags = set()
             self.decided = {}
+            self.watched = set()
+            self.watch_hits = []
+            self.prefer = None
             if self.depth == 0:
                 self.model = None
             outcome = None
@@ -1074,3 +1128,12 @@ class ConcreteEngine:
 
     def concretize(self, obj):
         return obj
+
+    def watch(self, *names):
+        pass
+
+    watch_hits = ()
+    prefer = None
+
+    def mentions(self, x, *names):
+        return False
